@@ -168,7 +168,7 @@ def _options(minpos, maxpos):
 
 
 CONTRACTS["removeOverlap.removeOverlap"] = {
-    "props": ["C01", "C02", "C03", "C08"], "heap": True,
+    "props": ["C01", "C02", "C03", "C06", "C08"], "heap": True,
     "params": {"nodes": "slist:ref:Node"},
     "cases": [{"params": {"options": _options(mn, mx)}} for mn in ("none", "real") for mx in ("none", "real")],
     "requires": _NODES_OK + ["options['nodeSpacing'] >= 0", "inv_blk()", "active_ends()"],
@@ -198,7 +198,11 @@ CONTRACTS["removeOverlap.removeOverlap"] = {
                     ("old_untouched", "forall(lambda c: implies(old(alloc(c)), c.active == old(c.active) and c.left is old(c.left) and c.right is old(c.right) "
                                       "and c.gap == old(c.gap) and c.equality == old(c.equality) and c.unsatisfiable == old(c.unsatisfiable)), 'ref:Constraint')")]},
     },
-    "ensures": [("returns_the_list", "result is nodes")],
+    "ensures": [("returns_the_list", "result is nodes"),
+                # every item of a non-empty layer gets its target (stub's final position, else the data position) - also when
+                # the layer holds a single item (C06: never a stale position)
+                ("every_item_has_its_target", "forall(lambda j: implies(0 <= j < len(nodes), nodes[j].targetPos is not None "
+                                              "and nodes[j].targetPos == target_of(nodes[j])))")],
     # cut right after the item variables have been created (assignment site variables#0)
     "cuts": {"after_assign:new_options#0": [("E0_inv_blk_at_entry", "inv_blk()")],
              "after_expr#1": [("E1_inv_blk_after_sort", "inv_blk()")],
